@@ -42,6 +42,10 @@ THEOREMS = [
     "C08_batch_err_title_vs_key",
     "C08_batch_err_key_vs_key",
     "C08_batch_defs_only",
+    "C08_created_distinct_or_err",
+    "C08_created_plain",
+    "C08_created_err_root_vs_derived",
+    "C08_created_err_key_vs_derived",
     "C08_classes_satisfiable",
 ]
 ALLOWED_AXIOMS = ()
@@ -356,12 +360,21 @@ def source_cases(rnd, tier, small, short, rand):
             if rnd.random() < 0.3:
                 out.append({"title": k, "defs": dedupe([t] + rnd.sample(base, 2))})
         out.append({"title": t, "defs": dedupe(rnd.sample(base, rnd.randrange(1, 4)))})
-    # derived inline type names (not in the Coq model; direct oracle only)
+    # derived inline type names <Parent><Property> (model: created_names / add_batch_full)
     for parent, prop, other in [("Foo", "bar", "foo bar"), ("Foo", "bar", "FooBar"), ("foo", "bar-baz", "foo_bar_baz"),
-                                ("my-def", "x", "MyDefX"), ("A", "b", "ab"), ("Zoo", "bar", "zoo bar")]:
-        out.append({"title": other, "defs": [parent], "inline": {parent: prop}, "derived": True})     # title vs derived
-        out.append({"title": None, "defs": dedupe([parent, other]), "inline": {parent: prop}, "derived": True})  # key vs derived
+                                ("my-def", "x", "MyDefX"), ("A", "b", "ab"), ("Zoo", "bar", "zoo bar"), ("1", "2", "x1_2"),
+                                ("\u00e9", "t\u00e9", "\u00c9T\u00e9"), ("self", "Self", "self self"), ("XMLHttp", "requestID", "xml http request id")]:
+        out.append({"title": other, "defs": [parent], "inline": {parent: prop}})                          # title vs derived
+        out.append({"title": None, "defs": dedupe([parent, other]), "inline": {parent: prop}})           # key vs derived
+        out.append({"title": "Root", "defs": dedupe([parent, other, "zz"]), "inline": {parent: prop}})
         out.append({"title": other + " q", "defs": [parent], "inline": {parent: prop}})                   # control
+        out.append({"title": None, "defs": dedupe([parent, "mid", other + "9"]), "inline": {parent: prop}})  # control
+    # the named definition is converted FIRST: assign_type reuses its id for the inline type (no duplicate item)
+    out.append({"title": None, "defs": ["ZooBar", "zoo"], "inline": {"zoo": "bar"}})
+    out.append({"title": None, "defs": ["FOO_BAR", "foo"], "inline": {"foo": "bar"}})
+    # two definitions deriving the same inline name (second one reuses the first)
+    out.append({"title": None, "defs": ["Foo", "foo-"], "inline": {"Foo": "bar", "foo-": "bar"}})
+    out.append({"title": "T", "defs": ["a b", "a"], "inline": {"a b": "c", "a": "b c"}})
     return out
 
 
@@ -524,14 +537,9 @@ def check_batch(pipe, spec, case, res):
     want = len(spec["defs"]) + (1 if spec.get("title") is not None else 0) + len(spec.get("inline", {}))
     dups = sorted({i for i in idents if idents.count(i) > 1})
     if dups:
+        # C08-F2 / C08-F5 are fixed (c22ef06, 40183ea): any duplicate item is a violation again
         pipe.stats["dup_items"] += 1
-        # the inline sub-type is the item whose only field is `q`
-        derived = {i["name"] for i in items if i["kind"] == "struct" and i["fields"].get("k") == "named"
-                   and [f["name"] for f in i["fields"]["fields"]] == ["q"]}
-        if spec.get("inline") and all(d in derived and idents.count(d) == 2 for d in dups):
-            pipe.finding("C08-F5", {"spec": spec, "duplicate_item": dups})
-        else:
-            pipe.bad("duplicate item names in the module", case, res, items=dups, idents=idents)
+        pipe.bad("duplicate item names in the module", case, res, items=dups, idents=idents)
     elif len(idents) != want and not spec.get("inline"):
         pipe.bad("number of items differs from the number of name sources", case, res, idents=idents, expected=want)
     pipe.nfc(idents, spec_strings(spec), "items")
@@ -821,6 +829,14 @@ def run(ctx):
                     res.update({"steps": [{"r": "ok", "id": 0}], "render": {"r": "ok", "scan": {"items": [
                         {"mod": "", "kind": "struct", "name": i, "fields": {"k": "named", "fields": [
                             {"name": "a", "serde": [], "ty": "String", "vis": "pub"}]}} for i in ids + [tid]]}}})
+            if mutate == "no-created-check" and kind == "batch" and names.get("inline") == {"Foo": "bar"} \
+                    and names.get("title") == "foo bar" and names["defs"] == ["Foo"]:
+                # emulates the created_names check (fix 40183ea) removed: two items `FooBar` are emitted
+                res.clear()
+                res.update({"steps": [{"r": "ok", "id": 2}], "render": {"r": "ok", "scan": {"items": [
+                    {"mod": "", "kind": "struct", "name": n, "fields": {"k": "named", "fields": [
+                        {"name": f, "serde": [], "ty": "String", "vis": "pub"}]}}
+                    for n, f in (("Foo", "bar"), ("FooBar", "p"), ("FooBar", "q"))]}}})
             if mutate == "no-def-unique-check" and kind == "defs" and names == ["foo", "Foo"]:
                 # emulates lib.rs batch_names check (fix c22ef06) removed: two items `Foo` are emitted
                 res.clear()
@@ -867,12 +883,12 @@ def run(ctx):
         def expr(it):
             kind, names, _ = it
             if kind == "batch":
-                if names.get("inline"):
-                    return '"n/a"%string'
-                return "run_batch cls [%s] [%s] %s" % (
+                # definitions are converted in BTreeMap (code point) order of their keys, the root last
+                inl = names.get("inline", {})
+                return "run_batch_full cls [%s] [%s] %s" % (
                     ";".join("(%s,%s)" % (ustr(k), ustr(v)) for k, v in sorted(names.get("patch", {}).items())),
-                    ";".join(ustr(n) for n in names["defs"]),
-                    "None" if names.get("title") is None else "(Some %s)" % ustr(names["title"]))
+                    ";".join("(%s,[%s])" % (ustr(n), ustr(inl[n]) if n in inl else "") for n in sorted(names["defs"])),
+                    "None" if names.get("title") is None else "(Some (%s,[]))" % ustr(names["title"]))
             l = "[" + ";".join(ustr(n) for n in names) + "]"
             if kind in ("props", "propsx"):
                 # BTreeMap order of the property names, then stable sort by identifier: compare as multisets
@@ -896,8 +912,6 @@ def run(ctx):
                         not in res.get("steps", [{}])[0].get("msg", ""):
                     e = "err(other reason): " + str(res.get("steps"))
             elif kind == "batch":
-                if names.get("inline"):
-                    continue
                 if o is None:
                     e = "rejected"
                 elif isinstance(o, str):
